@@ -26,7 +26,7 @@ Start == IF Deficient THEN Cores \cup Short ELSE Cores
 
 Derive(x) == Bind(Table(x), LAMBDA tab : Bind(Meas(x), LAMBDA m :
   [rows |-> Rows(tab), observable |-> Observable(m), nocritical |-> NoCritical(m), countok |-> CountOK(tab), df |-> Chi2Df(tab),
-   zidx |-> ZIdx(tab), zw4 |-> ZW4(tab)]))
+   zkeys |-> ZKeys(tab), zidx |-> ZIdx(tab), zw4 |-> ZW4(tab)]))
 Changed(x) == (IF x.red = "none" THEN 0 ELSE 1) + (IF x.dup = "none" THEN 0 ELSE 1) + (IF x.ord = "created" THEN 0 ELSE 1)
 
 Init == /\ s \in [core : Start, red : {"none"}, dup : {"none"}, ord : {"created"}]
@@ -57,19 +57,19 @@ M_ObservableImpliesCount == out.observable => out.countok
 \* adding measurements never destroys observability: the required result of a state is that of its core
 M_RedundancyMonotone == Observable(CoreSlots(s.core)) => out.observable
 M_NoCriticalImpliesObservable == (Meas(s) # {} /\ out.nocritical) => out.observable
-\* z (cells, their order, their merged weights up to the duplicates) does not depend on the row order ...
-M_LayoutOrderFree == Bind(Table(s), LAMBDA tab : Bind(Table([s EXCEPT !.ord = "created"]), LAMBDA t0 :
-                        ZKeys(tab) = ZKeys(t0) /\ out.zw4 = ZW4(t0)))
+\* z (the cells in z order, their merged weights) does not depend on the row order ...
+M_LayoutOrderFree == s.ord # "created" => Bind(Table([s EXCEPT !.ord = "created"]), LAMBDA t0 : out.zkeys = ZKeys(t0) /\ out.zw4 = ZW4(t0))
 \* ... and duplicates add no cell: the cells are exactly the distinct slots of the set
-M_LayoutDupFree == Bind(Table(s), LAMBDA tab : Bind(Table([s EXCEPT !.dup = "none"]), LAMBDA t0 : ZKeys(tab) = ZKeys(t0)))
+M_LayoutDupFree == /\ s.dup # "none" => Bind(Table([s EXCEPT !.dup = "none"]), LAMBDA t0 : out.zkeys = ZKeys(t0))
                    /\ Len(out.zidx) = Cardinality(Meas(s))
-\* the remembered index of a cell is a row of that cell, distinct cells remember distinct rows
-M_FirstRowSound == Bind(Table(s), LAMBDA tab : Bind(ZKeys(tab), LAMBDA ks : \A k \in DOMAIN out.zidx :
-                         /\ out.zidx[k] + 1 \in DOMAIN tab
-                         /\ KeyOf[tab[out.zidx[k] + 1].slot] = ks[k]
-                         /\ \A j \in DOMAIN out.zidx : out.zidx[j] = out.zidx[k] => j = k))
-M_TableIsSet == Bind(Table(s), LAMBDA tab : TableSlots(tab) = Meas(s) /\ Len(tab) = Len(out.rows)
-                                            /\ Len(tab) = Cardinality(Meas(s)) + Cardinality(DupSlots(Meas(s), s.dup)))
+\* the table holds exactly the set (plus its duplicates); the remembered index of a cell is a row of that cell, and
+\* distinct cells remember distinct rows
+M_TableSound == Bind(Table(s), LAMBDA tab :
+                  /\ TableSlots(tab) = Meas(s) /\ Len(tab) = Len(out.rows)
+                  /\ Len(tab) = Cardinality(Meas(s)) + Cardinality(DupSlots(Meas(s), s.dup))
+                  /\ \A k \in DOMAIN out.zidx : /\ out.zidx[k] + 1 \in DOMAIN tab
+                                                /\ KeyOf[tab[out.zidx[k] + 1].slot] = out.zkeys[k]
+                                                /\ \A j \in DOMAIN out.zidx : out.zidx[j] = out.zidx[k] => j = k)
 \* the required outcome is invariant along every action (the property's invariance, at model level)
 M_ActionsKeepRequirement == [][out'.observable = out.observable /\ s'.core = s.core]_<<s, out>>
 =============================================================================
